@@ -13,6 +13,6 @@ Extraction "model.ml"
   parse_pat pat_matches pat_params pat_names first_segment pat_is_static spec_select compile_dyn compile_re parse_rx full matches akeys link_ok
   basic_auth auth_prog method_override wrap_loop wrap_spec
   all_actions action_name action_methods action_path action_id route_name resource_stmts resource_guard documented_path nf
-  build_path var_texts split_args placeholder subst_items map_set
+  build_path var_texts split_args placeholder subst_items map_set names_set
   clean_rooted clean_stack dir_open strip_prefix ext_filter
   auto_source doc_source has_body ctx_blob ctx_no_content ctx_http_error respond render_json render_jsonp render_xml rsp_init auto_pick supported ct_text ct_html ct_json ct_jsonp ct_xml.
